@@ -289,7 +289,7 @@ pub fn check_cmd(args: CheckArgs) -> i32 {
             return EXIT_HARNESS;
         }
     };
-    let corpus = match Corpus::load(4) {
+    let corpus = match Corpus::load(4, tier == Tier::Thorough) {
         Ok(c) => c,
         Err(e) => {
             eprintln!("harness error: corpus: {}", e);
